@@ -4,6 +4,8 @@ import (
 	"fmt"
 	"os"
 	"strings"
+
+	"golang.org/x/tools/go/ssa"
 )
 
 // developer aid: jqcheck dump methods | dump <function short name substring>
@@ -12,6 +14,14 @@ func dumpCmd(args []string) {
 	if err != nil {
 		fmt.Fprintln(os.Stderr, err)
 		os.Exit(2)
+	}
+	if len(args) > 1 && args[0] == "phis" {
+		dumpPhis(p, args[1])
+		return
+	}
+	if len(args) > 1 && args[0] == "calls" {
+		dumpCalls(p, args[1])
+		return
 	}
 	if len(args) > 1 && args[0] == "facts" {
 		dumpFacts(p, args[1])
@@ -67,5 +77,34 @@ func dumpFacts(p *Program, name string) {
 				fmt.Printf("    %s = %v\n", ft.cond.Name(), ft.truth)
 			}
 		}
+	}
+}
+
+// dumpCalls prints every call of the matching functions with rendered arguments and guards.
+func dumpCalls(p *Program, name string) {
+	for _, f := range p.Funcs {
+		if !strings.Contains(shortName(f), name) {
+			continue
+		}
+		fmt.Printf("== calls in %s\n", shortName(f))
+		for _, c := range p.renderedCalls(f) {
+			fmt.Printf("   %s  %s\n        when %s\n", p.InstrPos(c.Call), c.Text, strings.Join(c.Guards, " && "))
+		}
+	}
+}
+
+func dumpPhis(p *Program, name string) {
+	for _, f := range p.Funcs {
+		if !strings.Contains(shortName(f), name) {
+			continue
+		}
+		allInstrs(f, func(in ssa.Instruction) {
+			if phi, ok := in.(*ssa.Phi); ok && phi.Comment != "" {
+				fmt.Printf("phi %s (%s): %s\n", phi.Name(), phi.Comment, p.Render(phi))
+				for i := range phi.Edges {
+					fmt.Printf("    edge %d: %v\n", i, keysOf(guardsAtEdge(p, FactsOf(f), phi.Block().Preds[i], phi.Block())))
+				}
+			}
+		})
 	}
 }
